@@ -1,6 +1,7 @@
 package main
 
 import (
+	"context"
 	"encoding/json"
 	"flag"
 	"fmt"
@@ -10,6 +11,7 @@ import (
 	"sort"
 	"strings"
 	"sync"
+	"time"
 )
 
 // Mutant is a single-edit variant of today's source used to test the checker
@@ -96,9 +98,14 @@ func runOneMutant(exe, vdir, repo string, m Mutant) mutantResult {
 		tmps = append(tmps, tf.Name())
 		args = append(args, "-overlay", file+"="+tf.Name())
 	}
-	cmd := exec.Command(exe, args...)
+	ctx, cancel := context.WithTimeout(context.Background(), 3*time.Minute)
+	defer cancel()
+	cmd := exec.CommandContext(ctx, exe, args...)
 	cmd.Env = append(os.Environ(), "VERIF_DIR="+vdir, "CJVERIF_MUTANT=1")
 	out, err := cmd.CombinedOutput()
+	if ctx.Err() != nil {
+		return mutantResult{m.ID, "invalid", "analysis of the variant timed out (checker bug)"}
+	}
 	code := 0
 	if err != nil {
 		if ee, ok := err.(*exec.ExitError); ok {
@@ -153,7 +160,11 @@ func runMutants(vdir, repo, prop string) map[string]any {
 		return map[string]any{"error": err.Error()}
 	}
 	var mine []Mutant
+	only := os.Getenv("CJVERIF_ONLY")
 	for _, m := range ms {
+		if only != "" && !strings.Contains(m.ID, only) {
+			continue
+		}
 		if m.Property == prop {
 			mine = append(mine, m)
 		}
@@ -168,6 +179,7 @@ func runMutants(vdir, repo, prop string) map[string]any {
 			sem <- struct{}{}
 			defer func() { <-sem }()
 			results[i] = runOneMutant(exe, vdir, repo, m)
+			fmt.Fprintf(os.Stderr, "  .. %s %s\n", m.ID, results[i].Status)
 		}(i, m)
 	}
 	wg.Wait()
